@@ -280,7 +280,35 @@ class _Canon(ast.NodeTransformer):
     """Syntactic sugar is removed once, when a module is loaded, so that every rule sees one spelling:
          x: T = v          ->  x = v            (annotated assignment with a value)
          x is None         ->  x == None        (and `is not` -> `!=`), only against the literal None
+         if not c: A else: B   ->  if c: B else: A      (two-branch `if` / conditional expression whose test is a negation: `not c`,
+                                                          `a != b`, `a is not b`, `a not in b`; an elif chain is left alone)
        Positions are kept, so messages still point at the original lines."""
+
+    @staticmethod
+    def _positive(test):
+        """the un-negated test when `test` is a negation, else None"""
+        if isinstance(test, ast.UnaryOp) and isinstance(test.op, ast.Not):
+            return test.operand
+        if isinstance(test, ast.Compare) and len(test.ops) == 1 and isinstance(test.ops[0], (ast.NotEq, ast.IsNot, ast.NotIn)):
+            op = {ast.NotEq: ast.Eq, ast.IsNot: ast.Is, ast.NotIn: ast.In}[type(test.ops[0])]()
+            return ast.copy_location(ast.Compare(left=test.left, ops=[op], comparators=test.comparators), test)
+        return None
+
+    def visit_If(self, node):
+        self.generic_visit(node)
+        if node.orelse and not (len(node.orelse) == 1 and isinstance(node.orelse[0], ast.If)) \
+                and not (len(node.body) == 1 and isinstance(node.body[0], ast.If) and False):
+            pos = self._positive(node.test)
+            if pos is not None:
+                node.test, node.body, node.orelse = pos, node.orelse, node.body
+        return node
+
+    def visit_IfExp(self, node):
+        self.generic_visit(node)
+        pos = self._positive(node.test)
+        if pos is not None:
+            node.test, node.body, node.orelse = pos, node.orelse, node.body
+        return node
 
     def visit_AnnAssign(self, node):
         self.generic_visit(node)
@@ -300,8 +328,58 @@ class _Canon(ast.NodeTransformer):
         return node
 
 
+ALIAS_ATTRS = ("cores", "N", "M", "R", "is_ttm")
+
+
+def _inline_attr_aliases(fn):
+    """`cores = tens.cores` - a local bound exactly once to a TT attribute of a parameter, never written through (no `X[i] = ...`, no mutating
+    method call on it), where neither the parameter nor that attribute of it is ever re-bound in the function: every read of the local is
+    replaced by the attribute read it stands for, so that rules and interpreters see the operand whether or not the lookup is cached."""
+    import copy
+    a = fn.args
+    params = {x.arg for x in a.posonlyargs + a.args + a.kwonlyargs}
+    own = [n for n in ast.walk(fn)]
+    stores = {}
+    for n in own:
+        if isinstance(n, ast.Name) and isinstance(n.ctx, (ast.Store, ast.Del)):
+            stores[n.id] = stores.get(n.id, 0) + 1
+    attr_stores = {(n.value.id, n.attr.lstrip("_")) for n in own if isinstance(n, ast.Attribute) and isinstance(n.ctx, (ast.Store, ast.Del)) and isinstance(n.value, ast.Name)}
+    sub = {}
+    for n in own:
+        if isinstance(n, ast.Assign) and len(n.targets) == 1 and isinstance(n.targets[0], ast.Name) and stores.get(n.targets[0].id) == 1 \
+                and isinstance(n.value, ast.Attribute) and isinstance(n.value.value, ast.Name) and n.value.value.id in params \
+                and n.value.value.id not in stores and n.value.attr in ALIAS_ATTRS and n.targets[0].id not in params \
+                and (n.value.value.id, n.value.attr) not in attr_stores:
+            nm = n.targets[0].id
+            written = any((isinstance(x, (ast.Subscript, ast.Attribute)) and isinstance(x.ctx, (ast.Store, ast.Del)) and isinstance(x.value, ast.Name) and x.value.id == nm)
+                          or (isinstance(x, ast.Call) and isinstance(x.func, ast.Attribute) and isinstance(x.func.value, ast.Name) and x.func.value.id == nm
+                              and x.func.attr in ("append", "extend", "insert", "pop", "remove", "clear", "sort", "reverse"))
+                          or (isinstance(x, ast.AugAssign) and isinstance(x.target, ast.Subscript) and isinstance(x.target.value, ast.Name) and x.target.value.id == nm)
+                          for x in own)
+            # a property that hands out a copy (N, M, R) may be cached and then *compared after a mutation* only in writers; plain readers are safe
+            if not written:
+                sub[nm] = (n, n.value)
+    if not sub:
+        return
+
+    class R(ast.NodeTransformer):
+        def visit_Name(s, n):
+            if isinstance(n.ctx, ast.Load) and n.id in sub:
+                return ast.copy_location(copy.deepcopy(sub[n.id][1]), n)
+            return n
+
+        def visit_FunctionDef(s, n):
+            return n if n is not fn else s.generic_visit(n)
+
+        visit_Lambda = visit_AsyncFunctionDef = visit_FunctionDef
+    R().visit(fn)
+
+
 def _canonicalise(tree):
     tree = _Canon().visit(tree)
+    for n in ast.walk(tree):
+        if isinstance(n, (ast.FunctionDef, ast.AsyncFunctionDef)):
+            _inline_attr_aliases(n)
     ast.fix_missing_locations(tree)
     return tree
 
